@@ -106,6 +106,19 @@ def _strategy():
         if mode <= 4:
             b = draw(G.schema_strategy())
             return dict(a=G.render(a), b=G.render(b), edits=['fresh'])
+        if mode in (5, 6, 7, 8):
+            # a structural family (gen/families.py) inside a generated schema, and one of its edits
+            from vp_harness.gen import families as F
+            base = draw(G.schema_strategy(max_types=3))
+            fam = F.draw_family(draw, base['modules'], editable_only=True)
+            a2 = F.add(base, fam['A'], draw)
+            edit = draw(st.sampled_from(sorted(fam['B'])))
+            b2 = F.replace(a2, fam, edit)
+            tag = f'family:{fam["name"]}:{edit}'
+            if draw(st.integers(0, 4)) == 0:
+                a2, b2, tag = b2, a2, tag + ':reverse'
+            return dict(a=G.render(a2), b=G.render(b2), edits=[tag],
+                        a_via_migration=draw(st.integers(0, 3)) == 0)
         if mode >= 17:
             # one small, deeply nested change only
             a = G.ensure_deep_sites(a, draw)
@@ -131,8 +144,9 @@ def _run(rec, case):
              classes=['edit:' + e for e in sorted(set(edits))] +
                      (['noop'] if case['a'] == case['b'] else []),
              sample={'edits': edits, 'a': case['a'][:400], 'b': case['b'][:400]})
+    fam = ''.join('|' + e for e in edits if e.startswith('family:'))
     for sig, detail in viol[:1]:
-        rec.violation(sig + _script_features(detail), case, detail)
+        rec.violation(sig + _script_features(detail) + fam, case, detail)
 
 
 def _script_features(detail):
